@@ -1,7 +1,121 @@
 import SshAudit.Driver.WireOps
+import SshAudit.Driver.PolicyOps
+import SshAudit.Driver.OutputOps
+import SshAudit.Model.PolicyAudit
+import SshAudit.Gen.Policies
 namespace SshAudit.Driver
+open SshAudit SshAudit.PolicyAudit
 
-/-- stub: filled in by the builder of this extension -/
-def policyAuditOp (_op : String) (_args : List String) : Option J := none
+def jwrites (o : List (List Str)) : J := .arr (o.map J.ofStrs)
+
+def decConf : List String → Option Conf
+  | [h, p, cl, ch, w] => do
+    let host ← decStr h; let port ← decInt p; let clientAudit ← decBool cl; let clientHost ← decStr ch; let windows ← decBool w
+    pure { host, port, clientAudit, clientHost, windows }
+  | _ => none
+
+def decFileState (tok : String) : Option FileState :=
+  if tok = "absent" then some .absent else if tok = "present" then some .present
+  else match tok.splitOn ":" with
+    | ["denied", m] => (decStr m).map .denied
+    | _ => none
+
+def jdocPA (d : Doc) : J := .obj [
+  ("host", .str d.host), ("port", .num d.port), ("policy", .str d.policy), ("passed", .bool d.passed),
+  ("errors", jerrs d.errors), ("warnings", J.ofStrs d.warnings)]
+
+/-- `policyaudit.run <cfg,cfg,…> <vmsgs> <host> <port> <client> <clientHost> <windows> <nameAndVersion> <outdated> <policy: 11 tokens> <peer: 9 tokens>`:
+      the policy audit of a completed handshake under every listed option set (status, verdict, error records, the error text, the JSON document
+      as a value and as text, the buffer entries of `evaluate_policy`, their closed form, everything written to stdout).
+    `policyaudit.norm <strs>`: `_normalize_error_field` as printed.
+    `policyaudit.errstr <subset> <n> <field req opt act>…`: `error_str` of `_get_errors` for the given records.
+    `policyaudit.builtin <name>`: `load_builtin_policy` over the regenerated table.
+    `policyaudit.list <verbose> <colors>`: `list_builtin_policies` (change logs left empty) and the buffer entries / status of `-L`.
+    `policyaudit.make <host> <port> <client> <clientHost> <windows> <path> <today> <absent|present|denied:msg> <peer: 9 tokens>`: `make_policy`.
+    `policyaudit.fail <cfg> <vmsgs> <connect|parse> <text>`: the two endings without a banner report. -/
+def policyAuditOp (op : String) (args : List String) : Option J :=
+  match op with
+  | "policyaudit.run" =>
+    match args with
+    | cfgs :: vm :: h :: p :: cl :: ch :: w :: nv :: od :: rest => do
+      let cfgs ← (cfgs.splitOn ",").mapM decCfg
+      let vmsgs ← decStrs vm
+      let c ← decConf [h, p, cl, ch, w]
+      let nv ← decStr nv; let od ← decBool od
+      let pol ← decPolicy (rest.take 11)
+      let peer ← decPeer (rest.drop 11)
+      let pi : PolicyInfo := { policy := pol, nameAndVersion := nv, outdated := od }
+      let res := verdictOf pi peer
+      pure (jok (.obj [
+        ("passed", .bool res.1), ("errors", jerrs res.2),
+        ("errstr", .str (errorStr pol.allowSubset res.2)),
+        ("doc", jdocPA (docOf c pi res)),
+        ("runs", .arr (cfgs.map fun cfg =>
+          let r := policyAudit cfg vmsgs c pi (.completed peer)
+          .obj [("status", .nat r.status), ("stdout", jwrites r.stdout), ("text", .str (Output.outText r.stdout)),
+                ("entries", J.ofStrs (evalEntries cfg c pi peer)), ("closed", J.ofStrs (closedEntriesOf cfg c pi res)),
+                ("doctext", .str (docText cfg (docOf c pi res)))]))]))
+    | _ => none
+  | "policyaudit.norm" =>
+    match args with
+    | [l] => do let l ← decStrs l; pure (jok (.str (normField l)))
+    | _ => none
+  | "policyaudit.errstr" =>
+    match args with
+    | sub :: _n :: rest => do
+      let sub ← decBool sub
+      let rec go : List String → Option (List Pol.PErr)
+        | [] => some []
+        | f :: r :: o :: a :: more => do
+          let f ← decStr f; let r ← decStrs r; let o ← decStrs o; let a ← decStrs a
+          let tl ← go more
+          pure ({ field := f, expectedRequired := r, expectedOptional := o, actual := a } :: tl)
+        | _ => none
+      let errs ← go rest
+      pure (jok (.obj [("errstr", .str (errorStr sub errs)), ("blocks", J.ofStrs (errorBlocks sub errs)),
+                       ("json", .str (Text.join (Pol.s ", ") (errs.map dumpErr)))]))
+    | _ => none
+  | "policyaudit.builtin" =>
+    match args with
+    | [n] => do
+      let n ← decStr n
+      pure (match loadBuiltin Gen.builtinPolicies n with
+        | none => jok .null
+        | some (.error e) => jerr e
+        | some (.ok l) => jok (.obj [("name_and_version", .str l.info.nameAndVersion), ("outdated", .bool l.info.outdated), ("name", .str l.name),
+                                     ("version", .str l.version), ("server", .bool l.server), ("policy", jpol l.info.policy)]))
+    | _ => none
+  | "policyaudit.list" =>
+    match args with
+    | [v, co] => do
+      let v ← decBool v; let co ← decBool co
+      pure (match listBuiltin Gen.builtinPolicies v (fun _ => []) with
+        | .error e => jerr e
+        | .ok (sv, cl) =>
+          -- `-L` runs inside process_commandline: only -n and -v have reached the buffer (level info, not batch, not JSON)
+          let cfg : Output.Cfg := { colors := co, verbose := v }
+          let b := Output.exec cfg (listOps sv cl) {}
+          jok (.obj [("server", J.ofStrs sv), ("client", J.ofStrs cl), ("stdout", jwrites b.out), ("text", .str (Output.outText b.out)),
+                     ("status", .nat (listStatus sv cl))]))
+    | _ => none
+  | "policyaudit.make" =>
+    match args with
+    | h :: p :: cl :: ch :: w :: path :: today :: fs :: rest => do
+      let c ← decConf [h, p, cl, ch, w]
+      let path ← decStr path; let today ← decStr today; let fs ← decFileState fs
+      let peer ← decPeer rest
+      let r := makePolicy c path today peer fs
+      pure (jok (.obj [("written", J.ofOpt .str r.written), ("printed", .str r.printed), ("status", .nat r.status)]))
+    | _ => none
+  | "policyaudit.fail" =>
+    match args with
+    | [cfg, vm, kind, t] => do
+      let cfg ← decCfg cfg; let vmsgs ← decStrs vm; let t ← decStr t
+      let pi : PolicyInfo := { policy := {}, nameAndVersion := [] }
+      let e ← (if kind = "connect" then some (Ending.connectFailed t) else if kind = "parse" then some (Ending.parseFailed t) else none)
+      let r := policyAudit cfg vmsgs {} pi e
+      pure (jok (.obj [("status", .nat r.status), ("stdout", jwrites r.stdout), ("text", .str (Output.outText r.stdout))]))
+    | _ => none
+  | _ => none
 
 end SshAudit.Driver
